@@ -4,6 +4,7 @@ sys.path.insert(0, os.path.dirname(os.path.abspath(__file__)))
 
 REGISTRY = {
     'C15': ('checks.c15', 'check_c15'),
+    'C16': ('checks.c16', 'check_c16'),
     'C17': ('checks.c17', 'check_c17'),
     'C14': ('checks.c14', 'check_c14'),
     'C20': ('checks.c20', 'check_c20'),
